@@ -9,6 +9,15 @@ import gen
 ZERO64 = "0b" + "0" * 64
 
 
+def stat_stmt(rng, bits="(i10bytes)[72..76]"):
+    """Stat mostly AOK, now and then BUB / HLT / ADR / INS / PIP, driven by image bits: state
+    changes must also land in the cycle in which the status turns non-OK."""
+    if rng.random() < 0.35:
+        return "Stat = STAT_AOK;"
+    return ("Stat = [ %s == 0 : STAT_HLT; %s == 1 : STAT_INS; %s == 2 : STAT_BUB; %s == 3 : STAT_ADR; %s == 4 : STAT_PIP; 1 : STAT_AOK; ];"
+            % (bits, bits, bits, bits, bits))
+
+
 def parse_values(line):
     """'a=ff/8,b=0/u' -> {name: (bits, width|None)}"""
     out = {}
@@ -54,18 +63,28 @@ def bank_program(rng):
     nb = rng.randint(1, 3)
     ins = rng.sample([c for c in gen.LOWER if c not in "ps"], nb)
     outs = rng.sample([c for c in gen.UPPER if c != "P"], nb)
-    st = ["register pP { pc : 64 = 0; }", "p_pc = P_pc + 10;", "pc = P_pc;", "Stat = STAT_AOK;"]
+    st = ["register pP { pc : 64 = 0; }", "p_pc = P_pc + 10;", "pc = P_pc;", stat_stmt(rng, "(i10bytes)[60..64]")]
     banks = []
     bit = 0
     for li, lo in zip(ins, outs):
         regs = []
         for j in range(rng.randint(1, 3)):
             w = rng.choice([1, 2, 8, 31, 64, 65, 80, 127, 128])
-            d = rng.getrandbits(min(w, 24))
-            regs.append(("r%d" % j, w, d))
-        body = " ".join("%s : %d = %s;" % (r, w, d) for r, w, d in regs)
+            # defaults that fit, and unsized ones that do not fit before truncation (-1, ~0, oversize)
+            kind = rng.choice(["fit", "fit", "minus1", "not0", "oversize"])
+            if kind == "fit" or w >= 127:
+                d, dtext = rng.getrandbits(min(w, 24)), None
+            elif kind == "minus1":
+                d, dtext = (1 << 128) - 1, "-1"
+            elif kind == "not0":
+                d, dtext = (1 << 128) - 1, "~0"
+            else:
+                d = (1 << w) + rng.getrandbits(w) + (rng.getrandbits(3) << (w + 1))
+                dtext = None
+            regs.append(("r%d" % j, w, d, dtext if dtext else str(d)))
+        body = " ".join("%s : %d = %s;" % (r, w, dt) for r, w, d, dt in regs)
         st.append("register %s%s { %s }" % (li, lo, body))
-        for r, w, d in regs:
+        for r, w, d, dt in regs:
             # next value: old value plus fresh data (so stalls are visible)
             if w <= 80:
                 src = "(i10bytes)[%d..%d]" % (0, w) if w < 80 else "i10bytes"
@@ -99,7 +118,7 @@ def bank_oracle(banks, cycles):
             stall = post.get("stall_" + lo, (0, 1))[0] != 0
             bubble = post.get("bubble_" + lo, (0, 1))[0] != 0
             stats["both" if stall and bubble else "bubble" if bubble else "stall" if stall else "normal"] += 1
-            for r, w, d in regs:
+            for r, w, d, dt in regs:
                 o, i = "%s_%s" % (lo, r), "%s_%s" % (li, r)
                 if n == 0 and pre[o] != (d & ((1 << w) - 1), w):
                     errs.append("cycle 0: %s = %r, declared default %d" % (o, pre[o], d))
@@ -112,7 +131,7 @@ def bank_oracle(banks, cycles):
 
 # ------------------------------------------------------------------ C04: register file
 def regfile_program(rng):
-    st = ["register pP { pc : 64 = 0; }", "p_pc = P_pc + 10;", "pc = P_pc;", "Stat = STAT_AOK;"]
+    st = ["register pP { pc : 64 = 0; }", "p_pc = P_pc + 10;", "pc = P_pc;", stat_stmt(rng, "(i10bytes)[72..76]")]
     small = rng.random() < 0.6      # few registers in play: many collisions
     def sel(lo):
         s = "(i10bytes)[%d..%d]" % (lo, lo + 4)
@@ -171,7 +190,7 @@ BASES = [0x10, 0x0, 0x3, 0xff8, 0xffffffffffffffe8, 0xfffffffffffffff8, 0x7fffff
 
 def mem_program(rng):
     bases = rng.sample(BASES, 4)
-    st = ["register pP { pc : 64 = 0; }", "p_pc = P_pc + 10;", "pc = P_pc;", "Stat = STAT_AOK;",
+    st = ["register pP { pc : 64 = 0; }", "p_pc = P_pc + 10;", "pc = P_pc;", stat_stmt(rng, "(i10bytes)[11..15]"),
           "wire base : 64;",
           "base = [ (i10bytes)[0..2] == 0 : 0x%x; (i10bytes)[0..2] == 1 : 0x%x; (i10bytes)[0..2] == 2 : 0x%x; 1 : 0x%x; ];" % tuple(bases),
           "mem_addr = (base + (i10bytes)[2..6]);",
